@@ -96,6 +96,25 @@ except ValueError:
     pass
 
 
+class Shelf:
+    """Registered with method_to_typeid: `items_proxy` returns the plain list, the server hosts it and hands out a proxy."""
+
+    def __init__(self):
+        self.items = []
+
+    def items_proxy(self):
+        return self.items
+
+    def items_snapshot(self):
+        return list(self.items)
+
+
+try:
+    ServerProcess.register('Shelf', Shelf, method_to_typeid={'items_proxy': 'ManagedList'})
+except ValueError:
+    pass
+
+
 def describe_exc(e):
     from mpservice.multiprocessing.remote_exception import get_remote_traceback, is_remote_exception
 
